@@ -138,9 +138,12 @@ def do_run(name, ids, inrepo=False, tier="quick"):
             res = run_checks(name, ids, d, tier)
         finally:
             drop(d)
-    r = load_results()
-    r.setdefault(name, {}).update(res)
-    save_results(r)
+    import fcntl
+    with open(RESULTS + ".lock", "w") as lk:
+        fcntl.flock(lk, fcntl.LOCK_EX)
+        r = load_results()
+        r.setdefault(name, {}).update(res)
+        save_results(r)
 
 
 def table():
